@@ -135,6 +135,54 @@ fn inexact_integer_rows() -> &'static Vec<(Cmp, f64, i32, f64)> {
     })
 }
 
+/// Rows whose derived bound lands an ulp beside the value it should have (shared with C01, C02, C03):
+/// an integer variable bounded through an inexact quotient, or a variable pinned to one of its declared
+/// bounds through a coefficient such as 1.9. Returns the variable and the value it can (and must be able to) take.
+pub fn add_inexact_row(m: &mut M, rng: &mut ChaCha8Rng) -> Option<(usize, f64)> {
+    let nums: Vec<usize> = (0..m.n()).filter(|i| !matches!(m.types[*i], VT::Bool)).collect();
+    if nums.is_empty() {
+        return None;
+    }
+    let i = nums[rng.gen_range(0..nums.len())];
+    let (cmp, c, k, r) = if rng.gen_bool(0.5) {
+        // (a small range: the other checks enumerate integer domains)
+        let table: Vec<&(Cmp, f64, i32, f64)> = inexact_integer_rows().iter().filter(|t| t.2 <= 12).collect();
+        let (cmp, c, k, r) = *table[rng.gen_range(0..table.len())];
+        m.types[i] = VT::Int(0, 14);
+        (cmp, c, k as f64, r)
+    } else {
+        let c = [1.9, 0.9, 3.7, 6.3, 0.7, 1.1, 2.3, 0.3, 3.8][rng.gen_range(0..9)];
+        let (lo, hi) = match m.types[i] {
+            VT::Int(a, b) => (a as f64, b as f64),
+            VT::Real(a, b) | VT::NonNeg(a, b) => (a, b),
+            VT::Bool => return None,
+        };
+        let (cmp, bound) = if rng.gen_bool(0.5) && lo.is_finite() {
+            (Cmp::Le, lo)
+        } else if hi.is_finite() {
+            (Cmp::Ge, hi)
+        } else {
+            return None;
+        };
+        // the row must hold at the bound in exact arithmetic on the float constants (fl(c * bound) may round
+        // to the wrong side of the exact product)
+        let r = c * bound;
+        let (Some(qc), Some(qb), Some(qr)) = (q(c), q(bound), q(r)) else { return None };
+        let exact = &qc * &qb;
+        if (cmp == Cmp::Le && exact > qr) || (cmp == Cmp::Ge && exact < qr) {
+            return None;
+        }
+        (cmp, c, bound, r)
+    };
+    m.cons.push(Con { name: None, kind: CKind::Cmp(E::mul(E::Num(c), E::Var(i)), cmp, E::Num(r)) });
+    // the objective pulls towards the bound, so that an optimum is lost with the point
+    match (m.sense, cmp) {
+        (Sense::Max, Cmp::Le) | (Sense::Min, Cmp::Ge) => m.obj = E::add(m.obj.clone(), E::mul(E::Num(if m.sense == Sense::Max { 3.0 } else { -3.0 }), E::Var(i))),
+        _ => {}
+    }
+    Some((i, k))
+}
+
 impl Driver for C07 {
     fn id(&self) -> &'static str {
         "C07"
